@@ -260,6 +260,16 @@ def oracle(case, obs):
                     if alpha.canon_obs(want) != alpha.canon_obs(new):
                         return {"step": idx, "whole_root_append_differs_from_union": True,
                                 "expected": alpha.canon_obs(want), "got": alpha.canon_obs(new)}
+                # an emdpath naming a node UNRELATED to the saved node (C09_emdpath_unrelated_refused): must have been refused
+                if last_save["src"] == "R" and last_save["target"] and last_save["emdpath"] and last_ok:
+                    tgt = tuple(last_save["target"])
+                    tp = tuple(p for p in last_save["emdpath"].split("/") if p != "")[1:]
+                    tn = hist.tree_at(cur, tp)
+                    if tp and hist.tree_at(cur, tgt) is not None and tn is not None and tp != tgt and tp[:len(tgt)] != tgt:
+                        names_t = [k["n"] for k in tn["k"]] + [b[0] for b in tn["b"]]
+                        if tgt[-1] not in names_t and alpha.canon_obs(new) != alpha.canon_obs(cur):
+                            return {"step": idx, "append_under_an_unrelated_emdpath_was_not_refused_and_changed_the_file": True,
+                                    "target": list(tgt), "emdpath": last_save["emdpath"], "tree": last_save["tree"]}
                 # exact spec for a foreign node / root appended under an emdpath
                 if last_save["src"] == "X" and last_ok:
                     want = foreign_spec(cur, last_ms, last_save)
